@@ -4,8 +4,8 @@ import PkgModel.Version
 # Filenames — model of `parse_wheel_filename`, `parse_sdist_filename` (`utils.py`), `Tag`, `parse_tag` (`tags.py`)
 
 The code's own steps are kept: suffix test, `filename[:-4]`, `count("-")`, `split("-", dashes - 2)`, the
-`"__" in name_part or re.match(r"^[\w\d._]*$", name_part, re.UNICODE) is None` test (character set measured
-from the pattern; `$` also matches before one trailing newline), `canonicalize_name`, `Version(...)`,
+`"__" in name_part or re.match(r"^[\w\d._]*\Z", name_part, re.UNICODE) is None` test (character set and anchor kind
+measured from the pattern in the source), `canonicalize_name`, `Version(...)`,
 `_build_tag_regex.match` (`\d` measured — Unicode decimal digits —, `int()` on them, `.` stops at a newline and
 `match` ignores what follows), `parse_tag` on the last part.
 -/
@@ -75,10 +75,12 @@ def hasDunder : Str → Bool
 /-- `[\w\d._]` -/
 def nameChar (c : Nat) : Bool := inRanges Gen.NameTables.wheelNameRanges c
 
-/-- `re.match(r"^[\w\d._]*$", s, re.UNICODE) is not None` -/
-def nameOk : Str → Bool
+/-- `re.match(r"^[\w\d._]*\Z", s, re.UNICODE) is not None`; with a `$` anchor (`dollar`) one trailing newline is let through -/
+def nameOkWith (dollar : Bool) : Str → Bool
   | [] => true
-  | c :: r => (c == 10 && r.isEmpty) || (nameChar c && nameOk r)
+  | c :: r => (dollar && c == 10 && r.isEmpty) || (nameChar c && nameOkWith dollar r)
+
+def nameOk (s : Str) : Bool := nameOkWith Gen.NameTables.wheelNameDollar s
 
 /-- value `int()` gives a `\d` character; `none` if the character is not matched by `\d` -/
 def digitValIn : List (Nat × Nat × Nat) → Nat → Option Nat
